@@ -784,8 +784,10 @@ class URL:
         if authority:
             _add('//')
             _add(authority)
-        elif (scheme and path[:2] != '//' and path[:1] in ('', '/')
-              and self.uses_netloc):
+        elif path[:2] == '//' or (scheme and path[:1] in ('', '/')
+                                  and self.uses_netloc):
+            # a path starting with '//' needs an (empty) authority before
+            # it, or it would be re-read as one (RFC 3986 section 3.3)
             _add('//')
         if path:
             if scheme and authority and path[:1] != '/':
